@@ -345,6 +345,27 @@ def rule_e(model, rep):
     runit = model.unit(REG)
     sm = [n for n in ast.walk(runit.tree) if isinstance(n, ast.Attribute) and n.attr == "modules" and isinstance(n.value, ast.Name) and n.value.id == "sys"]
     rep.check(not sm, R, site(REG, "<module>") + " sys.modules", f"{len(sm)} reference(s) to sys.modules (line {sm[0].lineno if sm else '-'})", "the registry never reads sys.modules")
+    # a module that swaps itself out of sys.modules: an importer that already holds the stub (a thread that arrived while the module body
+    # was running) continues with the stub, so the stub must answer attribute lookups from the replacement (PEP 562 module __getattr__)
+    hu = model.unit("passlib.hash")
+    swaps = [n for n in hu.tree.body if isinstance(n, ast.Assign) and ast.unparse(n.targets[0]) == "sys.modules[__name__]"]
+    if not swaps:
+        rep.undecided(R, "passlib.hash:<module>", "self-replacement `sys.modules[__name__] = ...` not found")
+    else:
+        repl = ast.unparse(swaps[0].value)
+        ga = hu.funcs.get("__getattr__")
+        ok = ga is not None and [ast.unparse(x.value) for x in ast.walk(ga) if isinstance(x, ast.Return) and x.value is not None] == [f"getattr({repl}, {params(ga)[0]})"]
+        rep.check(ok, R, "passlib.hash:<module> stub attribute access", f"sys.modules[__name__] = {repl}  # and no module-level __getattr__ delegating to {repl}" if not ok else "module __getattr__ delegates to the proxy",
+                  "the stub module that replaces itself still serves attribute lookups from its replacement",
+                  witness="fresh process: T1 runs `from passlib.hash import sha256_crypt`; T2 starts `from passlib.hash import md5_crypt` while hash.py is executing: "
+                          "T2 waits on the import lock, continues with the stub module and gets ImportError: cannot import name 'md5_crypt'")
+    # shared lookup caches are filled idempotently: an `assert` on what the cache holds turns a harmless lost race into an error
+    DG = "passlib.crypto.digest"
+    lh = model.func(DG, "lookup_hash")
+    bad = [ast.unparse(a.test) for a in walk_no_nested(lh) if isinstance(a, ast.Assert) and "cache" in ast.unparse(a.test)]
+    rep.check(not bad, R, f"{DG}:lookup_hash cache fill", f"assert {bad[0]}" if bad else "no assertion on cache contents", "filling _hash_info_cache tolerates an entry another thread stored meanwhile",
+              witness="two threads make the first lookup of a digest only reachable through hashlib.new() (ripemd160, sm3): each builds its own HashInfo, the slower one dies with "
+                      "AssertionError: 'sm3' already in cache -- e.g. ctx.verify() on a scram hash with an sm3 digest")
     # _CryptConfig record caches: only idempotent dict caches
     C = "passlib.context"
     for q in ("_CryptConfig.get_record", "_CryptConfig._get_record_list"):
